@@ -405,6 +405,10 @@ func sidDocNameByKey(v string) (string, bool) {
 
 // Concrete maps a symbolic name to its concrete value; unknown names map to themselves.
 func (c *Chain) Concrete(name string) string {
+	if isSidDoc(name) && sidOfDoc(name) == name && c.App != nil {
+		// a sid did: its id on chain, or - not on chain - a stand-in that depends on the asking moment only
+		return "did:sid:" + c.sid(name, uint64(c.blockTime())).DocId
+	}
 	if v, ok := c.concr[name]; ok {
 		return v
 	}
